@@ -105,6 +105,8 @@ class WriterHarness(thrx.Harness):
                     'lines': visible_lines(wpath, {'writeCachedDataPoints', 'writeForever', 'shutdownModifyUpdateSpeed'}, pat)}
     if self.p.get('see_buckets'):
       vis[os.path.join(lib, 'util.py')] = {'drain', 'peek', 'setCapacityAndFillRate'}
+    if any(op[0] == 'query' for op in self.p.get('reactor', ())):
+      vis[os.path.join(lib, 'protocols.py')] = {'stringReceived'}
     if any(op[0] == 'report' for op in self.p.get('reactor', ())):
       vis[os.path.join(lib, 'instrumentation.py')] = {'recordMetrics'}
     return vis
@@ -273,6 +275,22 @@ class WriterHarness(thrx.Harness):
         self.stored.append((m, ts, v, not self.stop_initiated))
       elif op[0] == 'advance':
         s.now += op[1]
+      elif op[0] == 'query':
+        # graphite-web's CarbonLink asks the cache query port about a series (cached or not), on the reactor thread
+        s.point(('op', 'query', op[1]))
+        import pickle
+        import struct
+        from carbon.protocols import CacheManagementHandler
+        from twisted.internet.testing import StringTransport
+        h = CacheManagementHandler()
+        h.makeConnection(StringTransport())
+        body = pickle.dumps({'type': 'cache-query', 'metric': op[1]}, protocol=2)
+        try:
+          h.dataReceived(struct.pack('!L', len(body)) + body)
+        except thrx.Abort:
+          raise
+        except Exception as e:   # noqa
+          self.elog.append(('err', 'cache query raised %r' % (e,)))
       elif op[0] == 'report':
         # the reactor thread's periodic instrumentation tick, the real recordMetrics(): it reports and clears the counters
         # the writer thread is incrementing.  Only the cache_record() shim is replaced (the self-metrics are collected
